@@ -38,6 +38,9 @@
    watcher goroutine: <-session.Done(): if locked    LWatch i
      {setError(ErrLockSessionDone); return} else
      wait for the parent context
+   the call's context (caller deadline / lockCtx) is    LAbort i
+     already done before the tryAcquire RPC is sent:
+     the call fails without touching the store
    the watcher's deferred cancel(): Done() of the     LCancel i
      returned context closes.  Between LWatch and
      LCancel the code performs no call to the store
@@ -93,7 +96,8 @@ Inductive label :=
 | LKeepAlive (i : nat)
 | LWatch (i : nat)
 | LAcqLost (i : nat)
-| LCancel (i : nat).
+| LCancel (i : nat)
+| LAbort (i : nat).
 
 Definition all_keys (_ : Z) : bool := true.
 
@@ -234,6 +238,11 @@ Definition step (s : sys) (l : label) : option sys :=
               end
           | _ => None
           end
+      | None => None
+      end
+  | LAbort i =>
+      match nth_error (s_cs s) i with
+      | Some c => match c_pc c with Called _ => with_c s i kv (set_pc c (Failed ErrDeadline)) | _ => None end
       | None => None
       end
   | LCancel i =>
@@ -442,7 +451,7 @@ Definition do_ev (a : acc) (e : cev) : option acc :=
       | _ => None
       end)
   | EFail i fe =>
-      opt_bind (settle_ret s i) (fun s' =>
+      opt_bind (match pc_at s i with Some (Called _) => step s (LAbort i) | _ => settle_ret s i end) (fun s' =>
       match pc_at s' i with
       | Some (Failed e) => if ferr_eqb (ferr_of e) fe then Some (mkAcc s' (a_lose a) (a_in a)) else None
       | _ => None
